@@ -986,7 +986,14 @@ func c15NewSeq(env *c15Env, n int) (q *c15Seq, err error) {
 		if rng.Intn(2) == 0 {
 			// A file left by an earlier run of the program.
 			probe := fmt.Sprintf("v0.l%d.c15probe.test", i)
+			// Its content is the same under every reading of the statement.
 			t := c15GenText(rng, probe, "plain", 0)
+			for try := 0; try < 50 && len(c15Exotic(t.Bytes)) > 0; try++ {
+				t = c15GenText(rng, probe, "plain", 0)
+			}
+			if len(c15Exotic(t.Bytes)) > 0 {
+				t = &c15Text{Bytes: []byte("||" + probe + "^\n||ads.example.org^\n"), Probe: probe, Class: "plain"}
+			}
 			nf, _ := c15Normalise(t.Bytes, false, false, false)
 			p := filepath.Join(q.dataDir, filterDir, strconv.Itoa(l.ID)+".txt")
 			if err = os.WriteFile(p, nf, 0o644); err != nil {
